@@ -16,6 +16,7 @@ type genCfg struct {
 	conflictChance int
 	icName         bool // workloads named ingress-controller / names that are suffixes of other names
 	twinPct        int  // probability (pct) that a selector rule gets a re-spelled twin with other ports
+	complementPct  int  // probability (pct) of two policies whose union is all connections, completed range by range
 	podPortsVary   bool // pods of one owner may declare one port name on different numbers
 	collidePct     int  // probability (pct) that a twin rule's selector has requirement strings that concatenate to the original's
 	repName        bool // a real pod may be named representative-pod
@@ -299,6 +300,8 @@ func genNPRules(r *Rng, cfg *genCfg, egress bool) []NPRule {
 				if p.NsSel != nil {
 					t := respell(r, *p.NsSel)
 					q.NsSel = &t
+				} else if p.PodSel != nil && r.P(35) {
+					q.NsSel = &Sel{} // the same pods, in every namespace instead of the policy's own
 				}
 				twin.Peers = append(twin.Peers, q)
 			}
@@ -486,6 +489,16 @@ func genWorld(r *Rng, cfg *genCfg) *World {
 			wl.Replicas = &n
 		}
 		w.Objs = append(w.Objs, Obj{Kind: "wl", Wl: wl})
+	}
+	if cfg.complementPct > 0 && r.P(cfg.complementPct) {
+		// two policies on the same pods whose union is everything, the second completing one port range of the first
+		ns := Pick(r, nss)
+		k := Pick(r, []int{1023, 32767, 8080})
+		e := 65535
+		all := func(p string) NPPort { return NPPort{Proto: p, Kind: "num", Num: 1, End: &e} }
+		a := &NetPol{NS: ns, Name: "cpa", Types: []string{"I"}, Ingress: []NPRule{{Ports: []NPPort{all("TCP"), all("UDP"), {Proto: "SCTP", Kind: "num", Num: 1, End: &k}}}}}
+		b := &NetPol{NS: ns, Name: "cpb", Types: []string{"I"}, Ingress: []NPRule{{Ports: []NPPort{{Proto: "SCTP", Kind: "num", Num: k + 1, End: &e}}}}}
+		w.Objs = append(w.Objs, Obj{Kind: "np", Np: a}, Obj{Kind: "np", Np: b})
 	}
 	nNP := r.Intn(cfg.maxNP + 1)
 	for i := 0; i < nNP; i++ {
